@@ -304,68 +304,84 @@ Definition parse_exit (d : bytes) : option N :=
          end
   end.
 
+(* the subcommands that do not touch the file tree: (exit code, stdout, stderr, sleeper) *)
+Definition pure_res := (N * bytes * bytes * bool)%type.
+Definition pres (code : N) (out err : bytes) : pure_res := (code, out, err, false).
+
+Definition helper_pure (sub : bytes) (a : list bytes) (stdin : bytes) (env : list (bytes * bytes)) (cd : bytes)
+  : pure_res :=
+  let usage := pres 2 [] usage_text in
+  if bytes_eqb sub ((* "exit" *) [x65; x78; x69; x74]) then
+    match a with
+    | [n] => match parse_exit n with Some c => pres c [] [] | None => usage end
+    | _ => usage
+    end
+  else if bytes_eqb sub ((* "echo" *) [x65; x63; x68; x6f]) then pres 0 (join_with [SP] a ++ [NL]) []
+  else if bytes_eqb sub ((* "echoerr" *) [x65; x63; x68; x6f; x65; x72; x72]) then pres 0 [] (join_with [SP] a ++ [NL])
+  else if bytes_eqb sub ((* "fail" *) [x66; x61; x69; x6c]) then pres 1 [] (join_with [SP] a ++ [NL])
+  else if bytes_eqb sub ((* "both" *) [x62; x6f; x74; x68]) then
+    match a with
+    | [o; e] => pres 0 (o ++ [NL]) (e ++ [NL])
+    | _ => usage
+    end
+  else if bytes_eqb sub ((* "lines" *) [x6c; x69; x6e; x65; x73]) then pres 0 (concat (map (fun w => w ++ [NL]) a)) []
+  else if bytes_eqb sub ((* "lines8" *) [x6c; x69; x6e; x65; x73; x38]) then
+    (* the first word with a byte that is not UTF-8 behind it, the others as lines *)
+    match a with
+    | w :: r => pres 0 (w ++ [xff; NL] ++ concat (map (fun w => w ++ [NL]) r)) []
+    | [] => usage
+    end
+  else if bytes_eqb sub ((* "print" *) [x70; x72; x69; x6e; x74]) then
+    match a with [x] => pres 0 x [] | _ => usage end
+  else if bytes_eqb sub ((* "printerr" *) [x70; x72; x69; x6e; x74; x65; x72; x72]) then
+    match a with [x] => pres 0 [] x | _ => usage end
+  else if bytes_eqb sub ((* "cat" *) [x63; x61; x74]) then
+    match a with [] => pres 0 stdin [] | _ => usage end
+  else if bytes_eqb sub ((* "env" *) [x65; x6e; x76]) then
+    match a with [k] => pres 0 (child_getenv env cd k ++ [NL]) [] | _ => usage end
+  else if bytes_eqb sub ((* "environ" *) [x65; x6e; x76; x69; x72; x6f; x6e]) then
+    match a with [] => pres 0 (concat (environ_lines env cd)) [] | _ => usage end
+  else if bytes_eqb sub ((* "pwd" *) [x70; x77; x64]) then
+    match a with [] => pres 0 (cd ++ [NL]) [] | _ => usage end
+  else if bytes_eqb sub ((* "sleep" *) [x73; x6c; x65; x65; x70]) then
+    match a with
+    | [] => (0%N, [], [], true)
+    | _ => usage
+    end
+  else usage.
+
+Definition is_write_sub (sub : bytes) : bool :=
+  bytes_eqb sub ((* "write" *) [x77; x72; x69; x74; x65])
+  || bytes_eqb sub ((* "writeraw" *) [x77; x72; x69; x74; x65; x72; x61; x77]).
+
 Definition helper_run (args : list bytes) (stdin : bytes) (env : list (bytes * bytes)) (cd : bytes) (t : tree)
   : helper_res :=
   let usage := hres 2 [] usage_text t in
   match args with
   | [] => usage
   | sub :: a =>
-      if bytes_eqb sub ((* "exit" *) [x65; x78; x69; x74]) then
-        match a with
-        | [n] => match parse_exit n with Some c => hres c [] [] t | None => usage end
-        | _ => usage
-        end
-      else if bytes_eqb sub ((* "echo" *) [x65; x63; x68; x6f]) then hres 0 (join_with [SP] a ++ [NL]) [] t
-      else if bytes_eqb sub ((* "echoerr" *) [x65; x63; x68; x6f; x65; x72; x72]) then hres 0 [] (join_with [SP] a ++ [NL]) t
-      else if bytes_eqb sub ((* "fail" *) [x66; x61; x69; x6c]) then hres 1 [] (join_with [SP] a ++ [NL]) t
-      else if bytes_eqb sub ((* "both" *) [x62; x6f; x74; x68]) then
-        match a with
-        | [o; e] => hres 0 (o ++ [NL]) (e ++ [NL]) t
-        | _ => usage
-        end
-      else if bytes_eqb sub ((* "lines" *) [x6c; x69; x6e; x65; x73]) then hres 0 (concat (map (fun w => w ++ [NL]) a)) [] t
-      else if bytes_eqb sub ((* "lines8" *) [x6c; x69; x6e; x65; x73; x38]) then
-        (* the first word with a byte that is not UTF-8 behind it, the others as lines *)
-        match a with
-        | w :: r => hres 0 (w ++ [xff; NL] ++ concat (map (fun w => w ++ [NL]) r)) [] t
-        | [] => usage
-        end
-      else if bytes_eqb sub ((* "print" *) [x70; x72; x69; x6e; x74]) then
-        match a with [x] => hres 0 x [] t | _ => usage end
-      else if bytes_eqb sub ((* "printerr" *) [x70; x72; x69; x6e; x74; x65; x72; x72]) then
-        match a with [x] => hres 0 [] x t | _ => usage end
-      else if bytes_eqb sub ((* "cat" *) [x63; x61; x74]) then
-        match a with [] => hres 0 stdin [] t | _ => usage end
-      else if bytes_eqb sub ((* "env" *) [x65; x6e; x76]) then
-        match a with [k] => hres 0 (child_getenv env cd k ++ [NL]) [] t | _ => usage end
-      else if bytes_eqb sub ((* "environ" *) [x65; x6e; x76; x69; x72; x6f; x6e]) then
-        match a with [] => hres 0 (concat (environ_lines env cd)) [] t | _ => usage end
-      else if bytes_eqb sub ((* "pwd" *) [x70; x77; x64]) then
-        match a with [] => hres 0 (cd ++ [NL]) [] t | _ => usage end
-      else if bytes_eqb sub ((* "write" *) [x77; x72; x69; x74; x65]) then
-        match a with
-        | f :: ws =>
-            match write_file t (rel_to cd f) (join_with [SP] ws ++ [NL]) 438 with
-            | Some t' => hres 0 [] [] t'
-            | None => hres 1 [] write_failed_text t
-            end
-        | _ => usage
-        end
-      else if bytes_eqb sub ((* "writeraw" *) [x77; x72; x69; x74; x65; x72; x61; x77]) then
-        match a with
-        | [f; x] =>
-            match write_file t (rel_to cd f) x 438 with
-            | Some t' => hres 0 [] [] t'
-            | None => hres 1 [] write_failed_text t
-            end
-        | _ => usage
-        end
-      else if bytes_eqb sub ((* "sleep" *) [x73; x6c; x65; x65; x70]) then
-        match a with
-        | [] => {| h_code := 0; h_out := []; h_err := []; h_fs := t; h_sleeper := true |}
-        | _ => usage
-        end
-      else usage
+      if is_write_sub sub then
+        if bytes_eqb sub ((* "write" *) [x77; x72; x69; x74; x65]) then
+          match a with
+          | f :: ws =>
+              match write_file t (rel_to cd f) (join_with [SP] ws ++ [NL]) 438 with
+              | Some t' => hres 0 [] [] t'
+              | None => hres 1 [] write_failed_text t
+              end
+          | _ => usage
+          end
+        else
+          match a with
+          | [f; x] =>
+              match write_file t (rel_to cd f) x 438 with
+              | Some t' => hres 0 [] [] t'
+              | None => hres 1 [] write_failed_text t
+              end
+          | _ => usage
+          end
+      else
+        let '(code, out, err, sl) := helper_pure sub a stdin env cd in
+        {| h_code := code; h_out := out; h_err := err; h_fs := t; h_sleeper := sl |}
   end.
 
 (* execpath.Look: the helper is found when its directory is an element of $PATH *)
